@@ -230,6 +230,8 @@ pub struct State {
     pub max: usize,
     pub idle: usize,
     pub main_held: usize,
+    /// a third thread is blocked in get() while A and B race
+    pub waiter: bool,
 }
 
 #[derive(Clone, Debug)]
@@ -243,20 +245,22 @@ pub struct Scenario {
 
 impl Scenario {
     pub fn sig(&self) -> String {
-        format!("max={};idle={};held={};A={:?}@{}#{};B={:?}", self.state.max, self.state.idle, self.state.main_held, self.a, self.point, self.hit, self.b)
+        format!("max={};idle={};held={}{};A={:?}@{}#{};B={:?}", self.state.max, self.state.idle, self.state.main_held, if self.state.waiter { ";waiter" } else { "" }, self.a, self.point, self.hit, self.b)
     }
 }
 
 pub fn states() -> Vec<State> {
     vec![
-        State { max: 1, idle: 0, main_held: 0 },
-        State { max: 1, idle: 1, main_held: 0 },
-        State { max: 1, idle: 0, main_held: 1 },
-        State { max: 2, idle: 1, main_held: 0 },
-        State { max: 2, idle: 1, main_held: 1 },
-        State { max: 2, idle: 2, main_held: 0 },
-        State { max: 2, idle: 0, main_held: 2 },
-        State { max: 3, idle: 1, main_held: 1 },
+        State { max: 1, idle: 0, main_held: 0, waiter: false },
+        State { max: 1, idle: 1, main_held: 0, waiter: false },
+        State { max: 1, idle: 0, main_held: 1, waiter: false },
+        State { max: 2, idle: 1, main_held: 0, waiter: false },
+        State { max: 2, idle: 1, main_held: 1, waiter: false },
+        State { max: 2, idle: 2, main_held: 0, waiter: false },
+        State { max: 2, idle: 0, main_held: 2, waiter: false },
+        State { max: 3, idle: 1, main_held: 1, waiter: false },
+        State { max: 1, idle: 0, main_held: 1, waiter: true },
+        State { max: 2, idle: 0, main_held: 2, waiter: true },
     ]
 }
 
@@ -405,6 +409,29 @@ fn run_sweep_inner(prop: &'static str, sc: &Scenario, ctl: &Arc<Ctl>, record_onl
         sh.recycle_fail.store(if recycle_fail { 1 } else { 0 }, Ordering::SeqCst);
         sh.create_fail.store(if create_fail { 1 } else { 0 }, Ordering::SeqCst);
     }
+    // ---- optional third thread C: blocked in get() from the start (all capacity is held by the controller)
+    let c_cancel = Arc::new(AtomicBool::new(false));
+    let c_done = Arc::new(AtomicBool::new(false));
+    let c_pending = Arc::new(AtomicBool::new(false));
+    let c_handle = if st.waiter {
+        let (pool2, ctl2, c_cancel2, c_done2, c_pending2) = (pool.clone(), ctl.clone(), c_cancel.clone(), c_done.clone(), c_pending.clone());
+        let h = std::thread::spawn(move || {
+            enter(&ctl2, 2);
+            let prog = AtomicUsize::new(0);
+            // the object is given back at once: C only stands for "somebody is waiting"
+            let r = catch_unwind(AssertUnwindSafe(|| get_blocking(&pool2, &c_cancel2, &prog, &c_pending2).map(|r| r.map(|o| o.id))));
+            leave();
+            c_done2.store(true, Ordering::SeqCst);
+            r
+        });
+        let t0 = std::time::Instant::now();
+        while !c_pending.load(Ordering::SeqCst) && !c_done.load(Ordering::SeqCst) && t0.elapsed() < Duration::from_secs(2) {
+            std::thread::yield_now();
+        }
+        Some(h)
+    } else {
+        None
+    };
     let cancel = Arc::new(AtomicBool::new(false));
     let progress = Arc::new(AtomicUsize::new(0));
     let done = Arc::new(AtomicBool::new(false));
@@ -670,6 +697,62 @@ fn run_sweep_inner(prop: &'static str, sc: &Scenario, ctl: &Arc<Ctl>, record_onl
         Ok(r) => r,
         Err(_) => ARes::Panicked("thread A died".into()),
     };
+    // ---- the blocked third thread must have been served (or told Closed) by now
+    // (A's own result is still alive in `a_res`: an object in it goes back first)
+    let a_res = match a_res {
+        ARes::Obj(o) => {
+            log.push(format!("A -> Ok(obj{})", o.id));
+            let _ = sh.holders.fetch_sub(1, Ordering::SeqCst);
+            drop(o);
+            ARes::Nothing
+        }
+        other => other,
+    };
+    if let Some(h) = c_handle {
+        let t0 = std::time::Instant::now();
+        loop {
+            if c_done.load(Ordering::SeqCst) {
+                break;
+            }
+            // A may still hold the only slot: take its result into account below, here only wait
+            let st_now = pool.status();
+            let can_progress = pool.is_closed() || (st_now.max_size > 0 && st_now.size.saturating_sub(st_now.available) < st_now.max_size);
+            if !can_progress {
+                c_cancel.store(true, Ordering::SeqCst);
+            }
+            if t0.elapsed() > Duration::from_secs(6) {
+                if can_progress {
+                    sh.viol(
+                        &["C02", "C06", "C07"],
+                        "stranded_waiter",
+                        format!("the third thread is still blocked in get() 6s after A and B finished (closed={}, status={:?})", pool.is_closed(), st_now),
+                    );
+                } else {
+                    inconclusive = Some(format!("watchdog: C did not finish ({})", sc.sig()));
+                }
+                c_cancel.store(true, Ordering::SeqCst);
+                let t1 = std::time::Instant::now();
+                while !c_done.load(Ordering::SeqCst) && t1.elapsed() < Duration::from_secs(10) {
+                    std::thread::sleep(Duration::from_millis(1));
+                }
+                break;
+            }
+            std::thread::sleep(Duration::from_micros(200));
+        }
+        match h.join() {
+            Ok(Ok(Some(Ok(id)))) => log.push(format!("C -> Ok(obj{}), returned at once", id)),
+            Ok(Ok(Some(Err(e)))) => {
+                let e = format!("{:?}", e);
+                log.push(format!("C -> Err({})", e));
+                if e != "Closed" && e != "Backend(TErr)" {
+                    sh.viol(&["C04", "C02"], "unexpected_error", format!("the blocked get() of the third thread failed with {}", e));
+                }
+            }
+            Ok(Ok(None)) => log.push("C -> cancelled".into()),
+            Ok(Err(p)) => sh.viol(&["C02", "C06", "*"], "operation_panicked", format!("the blocked get() of the third thread panicked: {}", panic_message(&*p))),
+            Err(_) => sh.viol(&["*"], "thread_died", "thread C died".into()),
+        }
+    }
     leave();
     if ctl.watchdog_fired.load(Ordering::SeqCst) > 0 {
         inconclusive = Some(format!("latch watchdog fired ({})", sc.sig()));
